@@ -580,3 +580,5 @@ PROPS["C05"]["rule"] += (" Parsed-pairs sub-check (20 000 / 1 000 000 documents 
                         "(7 indices x 4 forced draws: no panic, bounds).")
 PROPS["C06"]["rule"] += " Bursts of 17 / 40 / 60 unicast solicitations (more than the 16-slot request queue), half of them at the very instant a periodic tick is due."
 PROPS["C07"]["rule"] += " One case in three has 1..3 sibling advertising interfaces (unicast_only at random) and 0..2 monitoring / idle interfaces before it in the one Metrics."
+PROPS["C12"]["rule"] += (" Live sub-check (4 000 / 400 000 cases): an advertiser with a ::/64 wildcard stanza receives the same foreign RA 2..4 times while the interface's /64 networks "
+                        "change in between; the counter increments and hook calls of every reception must match the rule list applied to the own RA of that moment.")
